@@ -101,6 +101,18 @@ theorem safe_bind {B : Nat} {x : Res α} {f : α → Res β} (hx : Safe B x)
 
 theorem safe_mono {B B' : Nat} {r : Res α} (h : Safe B r) (hb : B ≤ B') : Safe B' r := ⟨h.1, Nat.le_trans h.2 hb⟩
 
+/-- panic-freedom alone (when no allocation bound is wanted) -/
+def NoPanic (r : Res α) : Prop := ∀ w, r.outcome ≠ .panic w
+theorem Safe.noPanic {B : Nat} {r : Res α} (h : Safe B r) : NoPanic r := h.1
+theorem noPanic_bind {x : Res α} {f : α → Res β} (hx : NoPanic x) (hf : ∀ a, x.outcome = .ok a → NoPanic (f a)) :
+    NoPanic (x >>= f) := by
+  show NoPanic (Res.bind x f)
+  unfold Res.bind
+  cases hxo : x.outcome with
+  | ok a => exact hf a hxo
+  | err e => intro w h; cases h
+  | panic w => exact absurd hxo (hx w)
+
 theorem make_ok {n sz : Nat} {u : Unit} (h : (make n sz).outcome = .ok u) : n * sz ≤ goMaxAlloc := by
   unfold make at h
   by_cases hc : n * sz > goMaxAlloc
@@ -607,42 +619,48 @@ theorem oasSliceFromBytes_safe (buf : Bytes) (hm : InMemory buf) : Safe (2 * buf
   refine safe_bind (safe_make (by omega) (by unfold goMaxAlloc; omega)) (fun _ _ => ?_)
   exact oasLoop_safe _ (by omega) _ _ (by omega)
 
+/-- the metadata keys of indexmeta/keys.go: "kind", "epoch", "rootCid", "network" -/
+def keyKind : Bytes := [107, 105, 110, 100]
+def keyEpoch : Bytes := [101, 112, 111, 99, 104]
+def keyRootCid : Bytes := [114, 111, 111, 116, 67, 105, 100]
+def keyNetwork : Bytes := [110, 101, 116, 119, 111, 114, 107]
+
 /-- `getDefaultMetadata` (repaired): kind, epoch (at least 8 bytes), root CID (go-cid's verdict `castOk`), network -/
 def defaultMetadata (kvs : List KV) (castOk : Bool) : Res Nat :=
-  match metaGet kvs "kind".toUTF8.toList with
+  match metaGet kvs keyKind with
   | none => fail "metadata.kind is empty"
   | some _ =>
-    match metaGet kvs "epoch".toUTF8.toList with
+    match metaGet kvs keyEpoch with
     | none => fail "metadata.epoch is empty"
     | some e =>
       if e.length < 8 then fail "metadata.epoch has invalid length" else
       match e[7]? with
       | none => crash "index out of range [7]"
       | some _ =>
-        match metaGet kvs "rootCid".toUTF8.toList with
+        match metaGet kvs keyRootCid with
         | none => fail "metadata.rootCid is empty"
         | some _ =>
           if !castOk then fail "invalid cid" else
-          match metaGet kvs "network".toUTF8.toList with
+          match metaGet kvs keyNetwork with
           | none => fail "metadata.network is empty"
           | some _ => ok (unle (e.take 8))
 
 /-- pinned: `BtoUint64(epochBytes)` starts with `_ = buf[7]` -/
 def defaultMetadataPinned (kvs : List KV) (castOk : Bool) : Res Nat :=
-  match metaGet kvs "kind".toUTF8.toList with
+  match metaGet kvs keyKind with
   | none => fail "metadata.kind is empty"
   | some _ =>
-    match metaGet kvs "epoch".toUTF8.toList with
+    match metaGet kvs keyEpoch with
     | none => fail "metadata.epoch is empty"
     | some e =>
       match e[7]? with
       | none => crash "index out of range [7]"
       | some _ =>
-        match metaGet kvs "rootCid".toUTF8.toList with
+        match metaGet kvs keyRootCid with
         | none => fail "metadata.rootCid is empty"
         | some _ =>
           if !castOk then fail "invalid cid" else
-          match metaGet kvs "network".toUTF8.toList with
+          match metaGet kvs keyNetwork with
           | none => fail "metadata.network is empty"
           | some _ => ok (unle (e.take 8))
 
@@ -758,7 +776,8 @@ theorem bkOpen_safe (f : Bytes) : Safe bkOpenMaxAlloc (bkOpen f) := by
 
 /-! ## blocktimeindex: `unmarshalBinary`, `Get` -/
 
-def btMagic : Bytes := "blocktimeindex".toUTF8.toList
+/-- "blocktimeindex" -/
+def btMagic : Bytes := [98, 108, 111, 99, 107, 116, 105, 109, 101, 105, 110, 100, 101, 120]
 def epochLen : Nat := Generated.epochLen
 
 structure BT where
@@ -769,14 +788,16 @@ structure BT where
   values : List Nat
   deriving Repr
 
-/-- the value loop: `reader.Read(timeBuf)` fails only when nothing is left (a short read is not an error in Go) -/
-def btValues : Nat → Bytes → Res (List Nat)
-  | 0, _ => ok []
-  | n+1, bs => do
-    alloc 4
-    if bs.isEmpty then fail "failed to read time" else do
-    let r ← btValues n (bs.drop 4)
-    ok (unle (bs.take 4) :: r)
+/-- the value loop: `reader.Read(timeBuf)` fails only when nothing is left (a short read is not an error in Go);
+    written with an accumulator so that the compiled driver runs it in constant stack on a full epoch (432000 values) -/
+def btValuesAux : Nat → Bytes → List Nat → Option (List Nat)
+  | 0, _, acc => some acc.reverse
+  | n+1, bs, acc => if bs.isEmpty then none else btValuesAux n (bs.drop 4) (unle (bs.take 4) :: acc)
+
+/-- each round `make`s a 4-byte buffer: one `alloc 4` stands for all of them (only the maximum is recorded) -/
+def btValues (n : Nat) (bs : Bytes) : Res (List Nat) := do
+  alloc 4
+  ofOption "failed to read time" (btValuesAux n bs [])
 
 /-- one header field: `make([]byte, 8)` + `reader.Read` (fails only on an exhausted reader) -/
 def btField (bs : Bytes) : Res (Nat × Bytes) := do
@@ -814,13 +835,8 @@ def btGet := btGetG true
 def btGetPinned := btGetG false
 
 theorem btValues_safe (n : Nat) (bs : Bytes) : Safe 4 (btValues n bs) := by
-  induction n generalizing bs with
-  | zero => exact safe_ok _ _
-  | succ n ih =>
-    unfold btValues
-    refine safe_bind (safe_alloc (Nat.le_refl _)) (fun _ _ => ?_)
-    split; · exact safe_fail _ _
-    exact safe_bind (ih _) (fun _ _ => safe_ok _ _)
+  unfold btValues
+  exact safe_bind (safe_alloc (Nat.le_refl _)) (fun _ _ => safe_ofOption _ _ _)
 
 theorem btField_safe (bs : Bytes) : Safe 8 (btField bs) := by
   unfold btField
@@ -1007,6 +1023,22 @@ theorem parseNodeFromSection_safe (cidLen : Bytes → Option Nat) (hc : CidSpec 
   · have := hc _ _ hcl; omega
   · exact safe_ok _ _
 
+/-- `readNodeFromReaderAtWithOffsetAndSize(reader, nil, offset, length)`: `length` bytes at `offset` (the values an
+    index entry holds), then `parseNodeFromSection` -/
+def readNodeAt (cidLen : Bytes → Option Nat) (f : Bytes) (off len : Nat) : Res Nat := do
+  make len 1
+  if off ≥ 2 ^ 63 then fail "negative offset" else
+  if off + len > f.length ∨ off ≥ f.length then fail "EOF" else
+  parseNodeFromSection cidLen (slice f off len) none
+
+theorem readNodeAt_safe (cidLen : Bytes → Option Nat) (hc : CidSpec cidLen) (f : Bytes) (off len : Nat) (hl : len ≤ goMaxAlloc) :
+    Safe len (readNodeAt cidLen f off len) := by
+  unfold readNodeAt
+  refine safe_bind (safe_make (by omega) (by omega)) (fun _ _ => ?_)
+  split; · exact safe_fail _ _
+  split; · exact safe_fail _ _
+  exact safe_mono (parseNodeFromSection_safe cidLen hc _ _) (Nat.zero_le _)
+
 /-- `readNodeSizeFromReaderAtWithOffset`: ten bytes at the offset (a short read is an error), `binary.Uvarint`, and
     `dataLen += uint64(n)` where a negative `n` (overflow) wraps around; then the section limit -/
 def readNodeSize (f : Bytes) (off : Nat) : Res Nat := do
@@ -1090,5 +1122,378 @@ theorem readFirstSignature_safe (buf : Bytes) : Safe 64 (readFirstSignature buf)
   split
   · exact safe_fail _ _
   · exact safe_ok _ _
+
+/-! ## gsfa linked log: `Read`, `ReadWithSize` framing (after fixes C06-2 and C12), entry lists -/
+
+def llMaxRecord : Nat := 256 * 2 ^ 20
+
+/-- the framing part of `ReadWithSize(offset, size)`: the zstd payload and the pointer to the previous record.
+    `checked = true` has the comparison with the file size (fix C12); `size` is a uint64. -/
+def llFrameG (checked : Bool) (f : Bytes) (off size : Nat) : Res (Bytes × (Nat × Nat)) :=
+  if size > llMaxRecord then fail "compacted indexes length too large" else
+  if checked ∧ (off > f.length ∨ size > f.length - off) then fail "record exceeds the file size" else do
+  make size 1
+  -- `s.file.ReadAt(record, int64(offset))`: a negative offset or a short read is an error
+  if off ≥ 2 ^ 63 then fail "negative offset" else
+  match readAt f off size with
+  | none => fail "EOF"
+  | some record =>
+    match goUvarint record 0 with
+    | none => fail "invalid record"
+    | some (payloadLen, n) =>
+      if (n + payloadLen) % 2 ^ 64 ≠ size ∨ payloadLen < 9 then fail "invalid record" else
+      let data := record.drop n
+      -- `data[:len(data)-9]` and `data[len(data)-9:]`
+      if data.length < 9 then crash "slice bounds out of range" else do
+      let next ← oasFromBytes (data.drop (data.length - 9))
+      ok (data.take (data.length - 9), next)
+
+def llFrame := llFrameG true
+
+/-- `Read(offset)`: ten bytes at the offset, `binary.Uvarint`, then `ReadWithSize(offset, n + payloadLen)` (uint64 sum) -/
+def llRead (f : Bytes) (off : Nat) : Res (Bytes × (Nat × Nat)) := do
+  alloc 10
+  if off ≥ 2 ^ 63 then fail "negative offset" else
+  match readAt f off 10 with
+  | none => fail "EOF"
+  | some lb =>
+    match goUvarint lb 0 with
+    | none => fail "invalid compacted indexes length"
+    | some (l, n) => llFrame f off ((n + l) % 2 ^ 64)
+
+theorem llFrame_safe (f : Bytes) (off size : Nat) : Safe (f.length + 10) (llFrame f off size) := by
+  unfold llFrame llFrameG
+  split; · exact safe_fail _ _
+  split; · exact safe_fail _ _
+  rename_i hbig hchk
+  have hchk' : off ≤ f.length ∧ size ≤ f.length - off := by simp at hchk; omega
+  have hlm : llMaxRecord = 268435456 := by decide
+  refine safe_bind (safe_make (by omega) (by unfold goMaxAlloc; omega)) (fun _ _ => ?_)
+  split; · exact safe_fail _ _
+  split; · exact safe_fail _ _
+  rename_i record hrd
+  have hrl := readAt_length hrd
+  split; · exact safe_fail _ _
+  rename_i pl n hu
+  obtain ⟨hv, hn0, hnl⟩ := goUvarint_lt _ _ _ hu
+  split; · exact safe_fail _ _
+  rename_i hcond
+  simp only []
+  split
+  · rename_i hshort
+    exfalso
+    have hsum : (n + pl) % 2 ^ 64 = size ∧ 9 ≤ pl := by omega
+    have hlen : (record.drop n).length = record.length - n := List.length_drop
+    rw [hlen] at hshort
+    -- n + pl < 2^64 + 10, so the sum either did not wrap (then pl = size - n ≥ 9) or wrapped to less than n ≤ size
+    have h64 : (2:Nat) ^ 64 = 18446744073709551616 := by decide
+    by_cases hw : n + pl < 2 ^ 64
+    · rw [Nat.mod_eq_of_lt hw] at hsum; omega
+    · have : (n + pl) % 2 ^ 64 = n + pl - 2 ^ 64 := by
+        rw [Nat.mod_eq_sub_mod (by omega), Nat.mod_eq_of_lt (by omega)]
+      omega
+  · refine safe_bind (safe_mono (oasFromBytes_safe _) (by omega)) (fun _ _ => safe_ok _ _)
+
+theorem llRead_safe (f : Bytes) (off : Nat) : Safe (f.length + 10) (llRead f off) := by
+  unfold llRead
+  refine safe_bind (safe_alloc (by omega)) (fun _ _ => ?_)
+  split; · exact safe_fail _ _
+  split; · exact safe_fail _ _
+  split; · exact safe_fail _ _
+  exact llFrame_safe _ _ _
+
+/-- one field of an entry: `uvarintReader.ReadUvarint` -/
+inductive Rd (α : Type) where
+  | eof
+  | bad
+  | got (a : α) (rest : Bytes)
+
+def rdUvarint (bs : Bytes) : Rd Nat :=
+  if bs.isEmpty then .eof else
+  match goUvarint bs 0 with
+  | none => .bad
+  | some (v, n) => .got v (bs.drop n)
+
+structure Entry3 where
+  offset : Nat
+  size : Nat
+  slot : Nat
+  flags : Nat
+  deriving Repr
+
+/-- `OffsetAndSizeAndSlot.FromReader`: three uvarints and a flag byte -/
+def rdEntry (bs : Bytes) : Rd Entry3 :=
+  match rdUvarint bs with
+  | .eof => .eof
+  | .bad => .bad
+  | .got o r1 =>
+    match rdUvarint r1 with
+    | .eof => .eof
+    | .bad => .bad
+    | .got sz r2 =>
+      match rdUvarint r2 with
+      | .eof => .eof
+      | .bad => .bad
+      | .got sl r3 =>
+        match r3 with
+        | [] => .eof
+        | fl :: r4 => .got ⟨o, sz, sl, fl.toNat⟩ r4
+
+theorem rdUvarint_rest {bs : Bytes} {v : Nat} {r : Bytes} (h : rdUvarint bs = .got v r) : r.length < bs.length := by
+  unfold rdUvarint at h
+  split at h; · cases h
+  split at h; · cases h
+  rename_i v' n hu
+  cases h
+  obtain ⟨_, h0, hl⟩ := goUvarint_lt _ _ _ hu
+  simp [List.length_drop]; omega
+
+theorem rdEntry_rest {bs : Bytes} {e : Entry3} {r : Bytes} (h : rdEntry bs = .got e r) : r.length + 4 ≤ bs.length := by
+  unfold rdEntry at h
+  split at h; · cases h
+  · cases h
+  rename_i o r1 h1
+  split at h; · cases h
+  · cases h
+  rename_i sz r2 h2
+  split at h; · cases h
+  · cases h
+  rename_i sl r3 h3
+  split at h; · cases h
+  rename_i fl r4
+  cases h
+  have := rdUvarint_rest h1
+  have := rdUvarint_rest h2
+  have := rdUvarint_rest h3
+  simp at *
+  omega
+
+/-- size of a Go `OffsetAndSizeAndSlot` -/
+def entry3Size : Nat := 32
+
+/-- `OffsetAndSizeAndSlotSliceFromBytes`: entries until the reader reports EOF — also in the middle of an entry,
+    which is then dropped without an error —; any other decoding error fails the call.  `k` = entries so far
+    (`append` at most doubles the slice). -/
+def entryLoop (k : Nat) (bs : Bytes) : Res (List Entry3) :=
+  match h : rdEntry bs with
+  | .eof => ok []
+  | .bad => fail "failed to parse offset and size"
+  | .got e rest =>
+    have : rest.length < bs.length := by have := rdEntry_rest h; omega
+    Res.bind (alloc (2 * entry3Size * (k + 1))) fun _ =>
+    Res.bind (entryLoop (k + 1) rest) fun r => ok (e :: r)
+termination_by bs.length
+
+def entriesFromBytes (bs : Bytes) : Res (List Entry3) := entryLoop 0 bs
+
+theorem entryLoop_safe : ∀ (d : Nat) (k : Nat) (bs : Bytes), bs.length ≤ d →
+    Safe (2 * entry3Size * (k + bs.length + 1)) (entryLoop k bs) := by
+  intro d
+  induction d with
+  | zero =>
+    intro k bs hd
+    unfold entryLoop
+    split
+    · exact safe_ok _ _
+    · exact safe_fail _ _
+    · rename_i e rest h
+      have := rdEntry_rest h
+      omega
+  | succ d ih =>
+    intro k bs hd
+    unfold entryLoop
+    split
+    · exact safe_ok _ _
+    · exact safe_fail _ _
+    · rename_i e rest h
+      have hr := rdEntry_rest h
+      refine safe_bind' (safe_alloc (by unfold entry3Size; omega)) (fun _ _ => ?_)
+      refine safe_bind' (safe_mono (ih (k + 1) rest (by omega)) (by unfold entry3Size; omega)) (fun _ _ => safe_ok _ _)
+
+theorem entriesFromBytes_safe (bs : Bytes) : Safe (64 * bs.length + 64) (entriesFromBytes bs) := by
+  unfold entriesFromBytes
+  have := entryLoop_safe bs.length 0 bs (Nat.le_refl _)
+  unfold entry3Size at this
+  exact safe_mono this (by omega)
+
+/-- `OffsetAndSizeAndSlot.FromBytes` (a single entry): at most 30 bytes, three uvarints, then `buf[0]` guarded by a
+    length check -/
+def entryFromBytes (buf : Bytes) : Res Entry3 :=
+  if buf.length > 30 then fail "invalid byte slice length" else
+  match goUvarint buf 0 with
+  | none => fail "failed to parse offset"
+  | some (o, n1) =>
+    match goUvarint (buf.drop n1) 0 with
+    | none => fail "failed to parse size"
+    | some (sz, n2) =>
+      match goUvarint ((buf.drop n1).drop n2) 0 with
+      | none => fail "failed to parse slot"
+      | some (sl, n3) =>
+        let r := ((buf.drop n1).drop n2).drop n3
+        if r.length = 0 then fail "missing flags" else
+        match r[0]? with
+        | some fl => ok ⟨o, sz, sl, fl.toNat⟩
+        | none => crash "index out of range [0]"
+
+theorem entryFromBytes_safe (buf : Bytes) : Safe 0 (entryFromBytes buf) := by
+  unfold entryFromBytes
+  split; · exact safe_fail _ _
+  split; · exact safe_fail _ _
+  split; · exact safe_fail _ _
+  split; · exact safe_fail _ _
+  simp only []
+  split; · exact safe_fail _ _
+  split
+  · exact safe_ok _ _
+  · rename_i hn
+    have := List.getElem?_eq_none_iff.mp hn
+    omega
+
+/-- `ReadWithSize` end to end, zstd as a parameter (`none` = the decoder rejects the payload) -/
+def llReadWithSize (z : Bytes → Option Bytes) (f : Bytes) (off size : Nat) : Res (List Entry3 × (Nat × Nat)) := do
+  let (payload, next) ← llFrame f off size
+  match z payload with
+  | none => fail "error while decompressing indexes"
+  | some raw => do
+    let es ← entriesFromBytes raw
+    ok (es, next)
+
+/-! ## gsfa manifest: `NewManifest` on an existing file (`readHeader`, version and size checks), `ReadAll` -/
+
+/-- "gsfamnfs" -/
+def mfMagic : Bytes := [103, 115, 102, 97, 109, 110, 102, 115]
+def mfVersion : Nat := 5
+
+/-- the bytes the metadata loop leaves are what follows the encoded pairs -/
+theorem metaLoop_consumed : ∀ (n : Nat) (bs : Bytes) (kvs : List KV) (rest : Bytes),
+    (metaLoop n bs).outcome = .ok (kvs, rest) →
+    rest.length + (kvs.map fun kv => 2 + kv.key.length + kv.val.length).sum = bs.length := by
+  intro n
+  induction n with
+  | zero =>
+    intro bs kvs rest h
+    simp only [metaLoop, ok] at h
+    cases h
+    simp
+  | succ n ih =>
+    intro bs kvs rest h
+    unfold metaLoop at h
+    split at h; · cases h
+    rename_i kl r1
+    simp only [Bind.bind, Res.bind, alloc] at h
+    split at h; · cases h
+    rename_i hk
+    split at h; · cases h
+    rename_i vl r3 hd
+    split at h; · cases h
+    rename_i hv
+    split at h
+    · rename_i p hp
+      obtain ⟨kvs', rest'⟩ := p
+      simp only [ok] at h
+      cases h
+      have := ih _ _ _ hp
+      have hl1 : (r1.drop kl.toNat).length = r1.length - kl.toNat := List.length_drop
+      rw [hd] at hl1
+      simp [List.length_take, List.length_drop] at *
+      omega
+    · cases h
+    · cases h
+
+/-- `readHeader` for version ≥ 2: the metadata through a `bufio.Reader`, then `len(meta.Bytes())` -/
+def mfMetaBytes (f : Bytes) (version : Nat) : Res Nat :=
+  if version ≥ 2 then do
+    alloc bufioSize
+    let (kvs, _) ← metaDecode (f.drop 16)
+    alloc (metaByteSize kvs)          -- `meta.Bytes()`
+    ok (metaByteSize kvs)
+  else ok 0
+
+/-- `NewManifest(file, _)` + `ReadAll()`: number of (key, value) tuples; an empty file is a fresh manifest -/
+def mfOpen (f : Bytes) : Res Nat :=
+  if f.length = 0 then ok 0 else do
+  alloc 8
+  if f.length < 8 then fail "EOF" else
+  if f.take 8 ≠ mfMagic then fail "this is not a gsfa manifest file" else do
+  alloc 8
+  if (f.drop 8).length < 8 then fail "EOF" else
+  let version := unle ((f.drop 8).take 8)
+  Res.bind (mfMetaBytes f version) fun metaBytes =>
+  if version ≠ mfVersion then fail "unsupported manifest version" else
+  -- `currentFileSize - headerLenWithoutMeta - metaByteSize` is an int64: explicit when it would be negative
+  if f.length < 16 + metaBytes then crash "makeslice: cap out of range" else
+  let dataSize := f.length - 16 - metaBytes
+  if dataSize % 16 ≠ 0 then fail "manifest is corrupt" else do
+  alloc 16
+  make (dataSize / 16) 16
+  ok (dataSize / 16)
+
+theorem metaDecode_consumed {bs : Bytes} {kvs : List KV} {rest : Bytes} (h : (metaDecode bs).outcome = .ok (kvs, rest)) :
+    rest.length + metaByteSize kvs = bs.length := by
+  unfold metaDecode at h
+  split at h; · cases h
+  rename_i c r
+  simp only [Bind.bind, Res.bind, alloc] at h
+  have := metaLoop_consumed _ _ _ _ h
+  unfold metaByteSize
+  simp at *
+  omega
+
+/-- constant part of the manifest's allocation bound: the metadata slice and the `bufio.Reader` -/
+def mfConst : Nat := metaMaxAlloc + bufioSize
+
+theorem mfMetaBytes_safe (f : Bytes) (v : Nat) : Safe (f.length + mfConst) (mfMetaBytes f v) := by
+  unfold mfMetaBytes
+  have hdrop : (f.drop 16).length = f.length - 16 := List.length_drop
+  have hc : mfConst = 24480 + 4096 := by decide
+  split
+  · refine safe_bind (safe_alloc (by unfold bufioSize; omega)) (fun _ _ => ?_)
+    refine safe_bind (safe_mono (metaDecode_safe _) (by unfold metaMaxAlloc kvSize; omega)) (fun p hp => ?_)
+    obtain ⟨kvs, rest⟩ := p
+    have := metaDecode_consumed hp
+    simp only []
+    refine safe_bind (safe_alloc (by omega)) (fun _ _ => safe_ok _ _)
+  · exact safe_ok _ _
+
+/-- the re-encoded metadata is exactly what was read from the file after the 16 fixed bytes -/
+theorem mfMetaBytes_le {f : Bytes} {v mb : Nat} (h16 : 16 ≤ f.length) (h : (mfMetaBytes f v).outcome = .ok mb) : 16 + mb ≤ f.length := by
+  unfold mfMetaBytes at h
+  have hdrop : (f.drop 16).length = f.length - 16 := List.length_drop
+  split at h
+  · simp only [Bind.bind, Res.bind, alloc] at h
+    split at h
+    · rename_i p hp
+      obtain ⟨kvs, rest⟩ := p
+      simp only [ok] at h
+      cases h
+      have := metaDecode_consumed hp
+      omega
+    · cases h
+    · cases h
+  · simp only [ok] at h
+    cases h
+    omega
+
+theorem mfOpen_safe (f : Bytes) (hm : InMemory f) : Safe (f.length + mfConst) (mfOpen f) := by
+  have hc : mfConst = 24480 + 4096 := by decide
+  unfold mfOpen
+  split; · exact safe_ok _ _
+  refine safe_bind (safe_alloc (by omega)) (fun _ _ => ?_)
+  split; · exact safe_fail _ _
+  split; · exact safe_fail _ _
+  refine safe_bind (safe_alloc (by omega)) (fun _ _ => ?_)
+  split; · exact safe_fail _ _
+  rename_i h8
+  have h16 : 16 ≤ f.length := by simp [List.length_drop] at h8; omega
+  refine safe_bind' (mfMetaBytes_safe f _) (fun mb hmb => ?_)
+  have hle := mfMetaBytes_le h16 hmb
+  split; · exact safe_fail _ _
+  split; · omega
+  simp only []
+  split; · exact safe_fail _ _
+  refine safe_bind (safe_alloc (by omega)) (fun _ _ => ?_)
+  have hd : (f.length - 16 - mb) / 16 * 16 ≤ f.length - 16 - mb := Nat.div_mul_le_self _ _
+  unfold InMemory at hm
+  refine safe_bind (safe_make (by omega) (by unfold goMaxAlloc; omega)) (fun _ _ => safe_ok _ _)
 
 end Px
